@@ -268,7 +268,11 @@ def sweep_nf(ctx, chk, rule, qual, fields, kernel_meth, domain_is_param):
     consts = {("attr", ("v", "self"), k_): C(v_) for k_, v_ in shared.solver_field_consts(ctx).items() if k_ != "threshold"}
     c = deep_simp(subst(W.cond, lambda x: consts.get(x))) if consts else W.cond
     dvar = None
-    if c[0] == "cmp" and c[1] == "<" and c[2] == thr and c[3][0] == "acc" and c[3][1] == W.id:
+    anyform = _any_moved_form(sx, W, c, thr)
+    if anyform is not None:
+        dvar = anyform["var"]
+        chk.ok(rule, where, "loop continues iff `%s`, which the sweep sets iff some state changed by more than self.threshold (exit <=> largest change <= threshold)" % dvar)
+    elif c[0] == "cmp" and c[1] == "<" and c[2] == thr and c[3][0] == "acc" and c[3][1] == W.id:
         dvar = c[3][2]
         chk.ok(rule, where, "loop continues iff %s > self.threshold (exit <=> change <= threshold, nothing else)" % dvar)
     elif c[0] == "cmp" and c[1] == "<=" and c[2] == thr and c[3][0] == "acc":
@@ -297,7 +301,14 @@ def sweep_nf(ctx, chk, rule, qual, fields, kernel_meth, domain_is_param):
     # initial change > threshold => at least one sweep
     init = W.init.get(dvar)
     thr_val = ctx.cache.get("threshold_value")
-    if not (is_const(init) and isinstance(init[1], (int, float)) and init[1] > (thr_val if thr_val is not None else 0)):
+    if anyform is not None:
+        k0 = anyform["init_const"]
+        if init == C(True) or (k0 is not None and k0 > (thr_val if thr_val is not None else 0)):
+            chk.ok(rule, where, "the loop is entered as after a change of %s > threshold: at least one sweep" % ("(unconditionally)" if init == C(True) else k0))
+        else:
+            chk.violation(rule, where, "the moved-flag starts as `%s`: the loop may not run a single sweep" % show(init),
+                          expected="initial change > threshold", found=show(init), construct="%s initial change" % f.short)
+    elif not (is_const(init) and isinstance(init[1], (int, float)) and init[1] > (thr_val if thr_val is not None else 0)):
         chk.violation(rule, where, "the change measure starts at `%s`: the loop may not run a single sweep" % show(init),
                       expected="initial change > threshold", found=show(init), construct="%s initial change" % f.short)
     else:
@@ -333,6 +344,9 @@ def sweep_nf(ctx, chk, rule, qual, fields, kernel_meth, domain_is_param):
     folds = classify(F)
     fo = folds.get(mv)
     fwhere = f.where(F.node)
+    if anyform is not None:
+        from ..symx import Fold
+        fo = Fold("EXT", sense="max", strict=True, init=C(0), term=anyform["change"], cond=None, none_seeded=False, truthy_seed=False)
     if fo is None or fo.kind != "EXT" or fo.sense != "max":
         if fo is not None and fo.kind == "LAST":
             chk.violation(rule, fwhere, "the change measure is the change of the last state visited (`%s`), not the maximum over the sweep" % show(fo.value),
@@ -368,6 +382,40 @@ def sweep_nf(ctx, chk, rule, qual, fields, kernel_meth, domain_is_param):
                       expected="every state of the domain is updated in every sweep", found=norm_stmt(F.node), construct="%s sweep partial" % f.short)
         return None
     return dict(f=f, sx=sx, W=W, F=F, fold=fo, where=fwhere, dvar=dvar)
+
+
+def _any_moved_form(sx, W, c, thr):
+    """`moving = 1 > thr; while moving: moving = False; for s in ...: if change(s) > thr: moving = True`.
+    Only whether some state moved by more than the threshold is kept, not by how much: the same exit condition as
+    `max change > thr`.  Returns {var, change, init_const} or None."""
+    b = c[1] if c[0] == "truthy" else c
+    if not (b[0] == "acc" and b[1] == W.id):
+        return None
+    var = b[2]
+    up = W.update.get(var)
+    if up is None or up[0] != "res" or up[1] not in sx.loops:
+        return None
+    F = sx.loops[up[1]]
+    mv = up[2]
+    if F.init.get(mv) != C(False):
+        return None
+    u = F.update.get(mv)
+    acc = ("acc", F.id, mv)
+    if not (u is not None and u[0] == "ite" and u[2] == C(True) and u[3] == acc and u[1][0] == "cmp" and u[1][1] == "<" and u[1][2] == thr
+            and not mentions(u[1][3], lambda x: x[0] == "acc" and x[1] == F.id and x[2] == mv)):
+        return None
+    init = W.init.get(var)
+    k0 = None
+    if init is not None and init[0] == "cmp" and init[1] == "<" and init[2] == thr and is_const(init[3]) and isinstance(init[3][1], (int, float)):
+        k0 = init[3][1]
+    elif init != C(True):
+        return None
+    # as a running maximum: the update the other rules read
+    F.update = dict(F.update)
+    F.update[mv] = ("ite", ("cmp", "<", acc, u[1][3]), u[1][3], acc)
+    F.init = dict(F.init)
+    F.init[mv] = C(0)
+    return dict(var=var, change=u[1][3], init_const=k0)
 
 
 def _sticky_watch_list(wnode):
@@ -441,7 +489,8 @@ def r4_sweep(ctx, chk, rule="C01.4"):
         return
     f, sx, W, F, fo, where = r["f"], r["sx"], r["W"], r["F"], r["fold"], r["where"]
     dom_param = f.params[1]
-    if strip_perm(F.source) != ("v", dom_param) and strip_perm(F.source)[0] in ("res", "compr", "apply", "mcall"):
+    if strip_perm(F.source) != ("v", dom_param) and (strip_perm(F.source)[0] in ("res", "compr", "apply", "mcall") or (
+            strip_perm(F.source)[0] == "call" and strip_perm(F.source)[1] in ("map", "zip", "enumerate", "filter", "itertools.chain") and mentions(F.source, lambda x: x == ("v", dom_param)))):
         # a list computed beforehand (a sweep plan, a pre-resolved table): how it derives from the search result is not followed
         chk.undecided(rule, where, "the sweep iterates `%s`; its relation to the search result `%s` is not resolved" % (show(F.source)[:80], dom_param))
         return
